@@ -2,6 +2,7 @@ import PhysisModel.Base.Bytes
 import PhysisModel.Base.WireText
 import PhysisModel.Spec.Fiin
 import PhysisModel.Model.Sha1
+import PhysisModel.Model.Utf8Lossy
 /-!
 Model of `src/fiin.rs`: the binrw-derived writer and reader of `FileInfo` / `FIINEntry`
 (`write_to_buffer`, `from_existing`) and `FileInfo::new`.
@@ -59,9 +60,9 @@ def readEntry (bs : Bytes) : Res (Entry × Bytes) :=
       match takeN 64 bs with                               -- count = 64
       | none => .none
       | some (raw, bs) =>
-        -- String::from_utf8(x).unwrap().trim_matches(char::from(0)).to_string()
-        if !Spec.Fiin.utf8Valid raw then .panic else
-        let name := trimNul raw
+        -- String::from_utf8_lossy(&x).trim_matches(char::from(0)).to_string()   (fix d91cecd; it
+        -- used to unwrap `String::from_utf8`): every maximal invalid part becomes U+FFFD
+        let name := trimNul (Utf8Lossy.fromUtf8Lossy raw)
         match takeN 24 bs with                             -- count = 24
         | none => .none
         | some (sha, bs) => .ok (⟨fileSize, name, sha⟩, bs)
